@@ -194,6 +194,25 @@ def _exec_case(c):
         H.register_dom_heuristic(H.min_value_dom_heuristic)
         C.register_consistency_algorithm(C.bound_consistency_algorithm)
         return ("ok", [], [0] * 13)
+    if c["op"] == "split_solve":
+        # Problem.split (public API) on a problem object that was — or was not — used by an earlier solver: the parts must mean the same
+        try:
+            p = prob.build()
+            if c.get("prior"):
+                first = cfg.solver(p)
+                n1 = 0
+                for _ in first.solve():
+                    n1 += 1
+                    if n1 >= 2:
+                        break
+            sols, stats = [], []
+            for q in p.split(c["k"], c["v"]):
+                s_ = cfg.solver(q)
+                sols.append([[int(x) for x in s] for s in s_.solve()])
+                stats.append(nv.stats_list(s_))
+            return ("ok", sols, stats)
+        except (IndexError, OverflowError, ValueError) as e:
+            return ("err", type(e).__name__, None)
     if c["op"] == "solve_reuse":
         # two solvers built one after the other on the SAME problem object; the second one's run is reported
         try:
